@@ -25,15 +25,15 @@ PROPS = {
             'technique': 'Verus: derived table denotations == reference table cell by cell (3x256) + automaton postcondition and invariant on the real ScancodeSet1::advance_state + sequence lemmas + verified clients'},
     'C03': {'denotations': 'layouts', 'lemmas': [], 'support_lemmas': ['ldefs'], 'cellgens': ['c03_cells'], 'assume': BASE + [A_CHAR, A_PRED, A_KANI, A_REF_LAY], 'kani': ['char_from_u8_is_cast', 'predicates_equal_copies'], 'design': 'DESIGN.md section 3, C03',
             'technique': 'Verus lemmas per (layout, key, level) against reference tables of the national layouts, for every modifier state and mode selecting the level, over the derived layout denotations'},
-    'C04': {'lemmas': ['c04'], 'assume': BASE + [A_PRIV], 'kani': [], 'design': 'DESIGN.md section 3, C04',
+    'C04': {'kani_scenarios': ['events'], 'lemmas': ['c04'], 'assume': BASE + [A_PRIV], 'kani': [], 'design': 'DESIGN.md section 3, C04',
             'technique': 'Verus postcondition mods\' == mods_step(mods, ev) on the real process_keyevent + induction lemma over Seq<KeyEvent> + verified clients'},
-    'C05': {'lemmas': ['c05'], 'assume': BASE + [A_COUNT, A_KANI], 'kani': ['count_ones_is_bit_sum'], 'design': 'DESIGN.md section 3, C05',
+    'C05': {'kani_scenarios': ['word'], 'lemmas': ['c05'], 'assume': BASE + [A_COUNT, A_KANI], 'kani': ['count_ones_is_bit_sum'], 'design': 'DESIGN.md section 3, C05',
             'technique': 'Verus postcondition r == frame_ref(word) on the real check_word/add_word + bit-vector lemmas (round trip, single-bit corruption); Kani discharges the count_ones assumption'},
-    'C06': {'lemmas': ['c06'], 'assume': BASE + [A_PRIV, A_COUNT, A_KANI], 'kani': ['count_ones_is_bit_sum'], 'design': 'DESIGN.md section 3, C06',
+    'C06': {'kani_scenarios': ['bits'], 'lemmas': ['c06'], 'assume': BASE + [A_PRIV, A_COUNT, A_KANI], 'kani': ['count_ones_is_bit_sum'], 'design': 'DESIGN.md section 3, C06',
             'technique': 'Verus invariant wf + step postcondition ps2_step on the real add_bit/clear/new + induction over frames and streams of frames + verified clients'},
     'C07': {'lemmas': ['c07'], 'assume': BASE + [A_PRIV], 'kani': [], 'design': 'DESIGN.md section 3, C07',
             'technique': 'Verus automaton postconditions on both real advance_state functions + rank/resync lemmas over Seq<u8> by induction'},
-    'C08': {'denotations': 'all', 'lemmas': [], 'assume': BASE + [A_PRIV, A_COUNT, A_CHAR, A_PRED, A_KANI], 'kani': ['count_ones_is_bit_sum', 'char_from_u8_is_cast', 'predicates_equal_copies'],
+    'C08': {'kani_scenarios': ['word', 'bits', 'events'], 'denotations': 'all', 'lemmas': [], 'assume': BASE + [A_PRIV, A_COUNT, A_CHAR, A_PRED, A_KANI], 'kani': ['count_ones_is_bit_sum', 'char_from_u8_is_cast', 'predicates_equal_copies'],
             'design': 'DESIGN.md section 3, C08',
             'technique': 'Verus built-in overflow / shift-range / panic-unreachable obligations on every exec function under the representation invariants'},
     'C09': {'denotations': 'layouts', 'lemmas': [], 'support_lemmas': ['ldefs'], 'cellgens': ['layout_cells'], 'assume': BASE + [A_CHAR, A_PRED, A_KANI], 'kani': ['char_from_u8_is_cast', 'predicates_equal_copies'], 'design': 'DESIGN.md section 3, C09',
@@ -50,7 +50,7 @@ PROPS = {
             'technique': 'Verus lemmas per (layout, key): 52 character-less keys raw in every state; raw results are the key itself or its NumLock-off alias, over the derived layout denotations'},
     'C13': {'denotations': 'tables', 'lemmas': ['c13'], 'cellgens': ['xlat_cells'], 'assume': BASE + [A_PRIV, A_REF_XL], 'kani': [], 'design': 'DESIGN.md section 3, C13',
             'technique': 'Verus lemmas relating the derived denotations of the six real tables through the i8042 translation table (forward, and backward via a verified inverse map) + event-level lemma over the two automaton contracts + verified client'},
-    'C14': {'lemmas': ['c14'], 'assume': BASE + [A_PRIV], 'kani': [], 'design': 'DESIGN.md section 3, C14',
+    'C14': {'kani_scenarios': ['events'], 'lemmas': ['c14'], 'assume': BASE + [A_PRIV], 'kani': [], 'design': 'DESIGN.md section 3, C14',
             'technique': 'Verus postcondition r == decode_out(layout, mods, mode, ev) on the real process_keyevent, generic in the layout via a ghost trait member + verified clients for mode/layout changes'},
     'C19': {'denotations': 'tables', 'lemmas': ['c19'], 'cellgens': ['injectivity'], 'assume': BASE + [A_PRIV], 'kani': [], 'design': 'DESIGN.md section 3, C19',
             'technique': 'Verus: injectivity of the six derived table denotations via verified inverse maps (hint from the real code, checked by Verus); make/break pairing lemmas over the automaton contracts + verified clients'},
